@@ -1,6 +1,6 @@
 """C05 — A send reports success iff the server accepted the message; never twice."""
 from tools import smtpgen
-from tools.lv import unhex, unhexlist
+from tools.lv import unhex, unhexlist, hexs
 
 LEVEL = "proof"
 RETRY_TIMING = True
@@ -38,6 +38,25 @@ def gen(tier, rng):
                 sc = h[:pos]
                 for nsends in (1, 2):
                     cases.append(c20.pool_case(client, 300, 1, False, nsends, "a@b.c", to, b"hello\r\n", [sc, h, h]))
+    # connection set-up through the transports (round 7: C05/m19, C05/m20): STARTTLS refused (4xx / 5xx) with opportunistic and required
+    # TLS, and AUTH refused or answered badly - the peer staying or closing right after its reply: the send reports the server's
+    # code, class and text (the model of Model/Tls.lean: the `tls` cases of C06 / C14)
+    from tools.props import c06
+    for client in "sa":
+        for mode in "or":
+            for kind in ("refused4", "refused5"):
+                for creds in (True, False):
+                    cases.append(c06.case(client, mode, "g", "1000", creds, kind))
+        for prefs, offered in (("P", b"PLAIN"), ("L", b"LOGIN"), ("PL", b"LOGIN PLAIN")):
+            for reply in (b"535 5.7.8 bad credentials\r\n", b"454 4.7.0 try later\r\n", b"535-no\r\n535 way\r\n", b"garbage\r\n", b"235 ok\r\n"):
+                for close in (False, True):
+                    clear = [smtpgen.step(b"220 srv ESMTP\r\n"), smtpgen.step(b"250-srv\r\n250 AUTH " + offered + b"\r\n")]
+                    if prefs[0] == "L":
+                        clear += [smtpgen.step(b"334 VXNlcm5hbWU6\r\n"), smtpgen.step(b"334 UGFzc3dvcmQ6\r\n")]
+                    clear += [smtpgen.step(reply, close)]
+                    clear += c06.SEND_OK if reply.startswith(b"235") and not close else [smtpgen.step(b"221 bye\r\n")]
+                    cases.append("\t".join(["tls", client, "n", "g", "1000", prefs, hexs("user"), hexs("secretpw"), hexs(b"secret-message\r\n"),
+                                            smtpgen.script_field(clear), smtpgen.script_field([])]))
     # random histories of the pooled transport: 2-4 connections, each good for 1-3 transactions (with the NOOP probe in
     # between), cut short at a random point and / or with one faulty reply; 2-5 sends over a pool of 1 or 2
     for _ in range({"quick": 150, "search": 600, "thorough": 3000}[tier]):
